@@ -45,21 +45,44 @@ Definition must_reject (s : aspec) (c mode : N) (recs : list rec) : bool :=
 
 Definition accepted (x : out) : bool := match x with XErr _ => false | _ => true end.
 
-Definition c08_step_ok (s : aspec) (e : entry) : bool :=
-  match e with
-  | E (OAppend c mode _ recs) x _ => negb (accepted x && must_reject s c mode recs)
-  | E (OCApp c mode recs) x _ => negb (accepted x && must_reject s c mode recs)
-  | E (OApply c _ recs _ _) x _ => negb (accepted x && must_reject s c AppendTrustedContiguous recs)
-  | _ => true
+(* StoreAppendBatch: the items are judged one after another, an accepted item
+   counting as stored for the following ones (one batch, several channels).
+   Result: 0 ok, 1 violation, 2 = structural signature of finding C08-K1: a strict
+   item was accepted although its message id is carried by an accepted item of
+   ANOTHER channel in the same batch, and nothing else is wrong with it (judged
+   against the log before the batch, [s0], it would be acceptable). *)
+Definition worst (a b : N) : N := if (a =? 1) || (b =? 1) then 1 else N.max a b.
+
+Fixpoint c08_batch_code (s0 s : aspec) (items : list (N * N * list rec)) (rs : list (N * N * N)) : N :=
+  match items, rs with
+  | (c, m, recs) :: items', (e, base, _) :: rs' =>
+    let mode := if m =? 1 then AppendServerAllocatedMessageID else AppendStrict in
+    if e =? 0 then
+      let here := if must_reject s c mode recs
+                  then (if must_reject s0 c mode recs then 1 else 2) else 0 in
+      worst here (c08_batch_code s0 (spec_append s c (msgs_from c (base + 1) recs)) items' rs')
+    else c08_batch_code s0 s items' rs'
+  | _, _ => 0
   end.
 
-Fixpoint c08_run (s : aspec) (tr : list entry) : bool :=
+Definition c08_step_code (s : aspec) (e : entry) : N :=
+  match e with
+  | E (OCBatch items) (XBatch rs) _ => c08_batch_code s s items rs
+  | E (OAppend c mode _ recs) x _ => if accepted x && must_reject s c mode recs then 1 else 0
+  | E (OCApp c mode recs) x _ => if accepted x && must_reject s c mode recs then 1 else 0
+  | E (OApply c _ recs _ _) x _ => if accepted x && must_reject s c AppendTrustedContiguous recs then 1 else 0
+  | _ => 0
+  end.
+
+Fixpoint c08_run (s : aspec) (tr : list entry) : N :=
   match tr with
-  | [] => true
+  | [] => 0
   | e :: rest =>
-    c08_step_ok s e
-    && match spec_step s e with Some s' => c08_run s' rest | None => false end
+    match spec_step s e with
+    | Some s' => worst (c08_step_code s e) (c08_run s' rest)
+    | None => 1
+    end
   end.
 
 Definition C08_mismatch : c07_case -> bool := C07_mismatch.
-Definition C08_monitor (c : c07_case) : N := if c08_run as_init (c_steps c) then 0 else 1.
+Definition C08_monitor (c : c07_case) : N := c08_run as_init (c_steps c).
